@@ -152,7 +152,12 @@ class Forest:
                 elif c == 1:
                     o[op[1]].append(self.arg(op[2]))
                 elif c == 2:
-                    o[op[1]].extend(o[op[2]])
+                    mode = op[3] if len(op) > 3 else 0
+                    src = o[op[2]]
+                    # extend() accepts a Tag (its children) or any iterable of elements - also a LAZY one over the live
+                    # child list, which the call must snapshot before it starts moving elements
+                    arg = src if mode == 0 else src.children if mode == 1 else iter(src.contents) if mode == 2 else (x for x in src.contents)
+                    o[op[1]].extend(arg)
                 elif c == 3:
                     o[op[1]].extend([self.arg(a) for a in op[2]])
                 elif c == 4:
